@@ -39,6 +39,13 @@ func registerStd(e *Engine) {
 		}
 		return FloatSym{Sec: c.SDiv(d, c.Const(1000000000, 64))}, true
 	})
+	e.reg("time.runtimeIsBubbled", func(e *Engine, st *State, cc *CallCtx) (Value, bool) { return c.False(), true })
+	e.reg("time.runtimeNow", func(e *Engine, st *State, cc *CallCtx) (Value, bool) {
+		return TupleV{c.Const(1700000000, 64), c.Const(0, 32), c.Const(1000000000, 64)}, true
+	})
+	e.reg("time.now", func(e *Engine, st *State, cc *CallCtx) (Value, bool) {
+		return TupleV{c.Const(1700000000, 64), c.Const(0, 32), c.Const(1000000000, 64)}, true
+	})
 	e.reg("time.runtimeNano", func(e *Engine, st *State, cc *CallCtx) (Value, bool) { return c.Const(1000000000, 64), true })
 	e.reg("time.registerLoadFromEmbeddedTZData", nop)
 	// sort.Slice / sort.SliceStable (reflection-based in std): all pairwise less(i,j) are evaluated on the
